@@ -168,7 +168,7 @@ PROPS.update({
     "C05": dict(layer=RES,
         streams=[S("call", "run_prop CClass P05", 600, 20000), S("exact", "run_prop CClass P05", 200, 6000),
                  S("c07f1", "run_prop CClass P05", 150, 4000), S("convert", "run_prop CClass P05", 150, 4000),
-                 S("namesub", "run_prop CClass P05", 150, 4000),
+                 S("namesub", "run_prop CClass P05", 150, 4000), S("c05diamond", "run_prop CClass P05", 100, 3000),
                  S("call", "run_prop CPanic P05", 300, 6000, variant="nat")],
         witness=[W("TestD5", "D5"), W("TestD18", "D18")],
         nontrivial_rule="at least two function executions in the history",
